@@ -404,6 +404,9 @@ func (s *c08Sim) idleListed(c int) bool {
 func TestVerif_C08_pool(t *testing.T) {
 	s := verifh.New(t, "C08", "pool",
 		"forced schedules on the real Transport pool, one goroutine, 12..60 composite calls, built around cancellation: MaxConnsPerHost 1..3 (sometimes none) on 1..2 keys with keep-alives on/off and MaxIdleConnsPerHost default/1/-1; phase 1 saturates the per-host limit (connections in use, dials parked in a dial hook), phase 2 queues 2..6 wants behind it (connsPerHostWait and, with keep-alives, idleConnWait), phase 3 cancels a non-empty subset — front / middle / back of the queue, wants whose dial is in flight, wants that were delivered a connection and have not picked it up —, phase 4 frees slots in every way (request done + connection put back / closed, dial success delivered late, dial failure, peer closes an idle connection, idle timeout, CloseIdleConnections) interleaved with new arrivals, late cancellations and pick-ups; after EVERY call the real state (per-host count, both wait queues with live/dead flag per entry, idle list, parked dials, closed connections, done flags, invariant verdict) is compared with the Lean pool model; non-trivial = a slot was freed while a cancelled want was queued in front of a live one")
+	// the compared dump contains detail the property does not fix (dead entries still listed in a
+	// queue, order of the idle list): the lane's own oracle is the invariant verdict of every state
+	s.OracleIndependent = true
 	r := s.Rand()
 	n := verifh.N(1500, 30000)
 	nFail := 0
@@ -651,7 +654,13 @@ func TestVerif_C08_pool(t *testing.T) {
 		}
 		line := fmt.Sprintf("c08pool %d %d %d %s %d %d %d %s", maxIdle, maxIdleHost, maxConns, dk, nKeys, maxWants, maxConnsN, strings.Join(ops, ","))
 		human := fmt.Sprintf("MaxIdleConns=%d MaxIdleConnsPerHost=%d MaxConnsPerHost=%d DisableKeepAlives=%v keys=%d ops=%s", maxIdle, maxIdleHost, maxConns, disableKA, nKeys, strings.Join(ops, " "))
-		s.Case(line, strings.Join(impl, ";"), true, "", skipped, human)
+		judgedOK := true
+		for _, o := range impl {
+			if !strings.Contains(o, " V=") || strings.Contains(o, "stranded") || strings.Contains(o, "handoff-lost") || strings.Contains(o, "over-limit") {
+				judgedOK = false
+			}
+		}
+		s.Case(line, strings.Join(impl, ";"), judgedOK, "", skipped, human)
 		if skipped {
 			s.Count("slot-freed-past-cancelled-front")
 		}
